@@ -16,7 +16,7 @@ echo "baseline-with-patch: $T"
 BASE_OK=0; echo "$T" | grep -q "ok. 98 passed" && BASE_OK=1
 git checkout -q -- . ; git clean -fdq
 [ -f "$DIR/demo.diff" ] && { git apply --whitespace=nowarn "$DIR/demo.diff" || { res "RESULT demo-does-not-apply"; exit 2; }; }
-mkdir -p _out && cp "$DIR"/* _out/ 2>/dev/null
+mkdir -p _out && cp -r "$DIR"/* _out/ 2>/dev/null
 [ -f "$DIR/demo.js" ] && cp "$DIR/demo.js" ./_demo.js
 for f in "$DIR"/demo_*.js "$DIR"/*.mjs; do [ -f "$f" ] && cp "$f" . ; done
 bash -c "$DEMO_CMD" > /tmp/wt/verify_without.log 2>&1; W=$?
